@@ -165,7 +165,7 @@ func (tds *Conn) NewChannel() (*Channel, error) {
 		return nil, fmt.Errorf("did not received expected header-only packet: %v", pkg)
 	}
 
-	if header.Header.MsgType&TDS_BUF_PROTACK != TDS_BUF_PROTACK {
+	if header.Header.MsgType != TDS_BUF_PROTACK {
 		return nil, fmt.Errorf("did not receive protack in header-only packet: %s",
 			header)
 	}
